@@ -28,7 +28,7 @@ fn any_millis(max_ms: u64) -> Duration {
     Duration::new(secs, ms * 1_000_000)
 }
 
-fn drive<T: TimeoutFn<u32> + 'static>(mut tl: TimeLimiter<Inner, T>, script: svc::Script, timeout: Duration, cancel: bool, req: u32) {
+fn drive<T: TimeoutFn<u32> + 'static>(mut tl: TimeLimiter<Inner, T>, script: svc::Script, timeout: Duration, cancel: bool, req: u32) -> bool {
     let latency = script.latency;
     let _ = svc::poll_ready_once(&mut tl);
     let mut fut = tl.call(req);
@@ -99,10 +99,11 @@ fn drive<T: TimeoutFn<u32> + 'static>(mut tl: TimeLimiter<Inner, T>, script: svc
             assert!(!model::task_alive(0) && mon().completed == 1 && mon().dropped_unfinished == 0, "[C06.background_completes] the detached inner call runs to completion");
         }
     }
-    kani::cover!(matches!(out, Some(Err(TimeLimiterError::Timeout))), "timeout reachable");
+    let timed_out = matches!(out, Some(Err(TimeLimiterError::Timeout)));
     // (no drop glue: the call has resolved or is abandoned; dropping the boxed state machine
     //  and the task table only adds to the formula)
     std::mem::forget(fut);
+    timed_out
 }
 
 fn any_script_with_latency() -> svc::Script {
@@ -116,7 +117,23 @@ fn fixed(cancel: bool) {
     let script = any_script_with_latency();
     let cfg = TimeLimiterConfig { timeout_source: FixedTimeout::new(timeout), cancel_running_future: cancel, event_listeners: tower_resilience_core::EventListeners::new(), name: String::new() };
     let tl = TimeLimiter::new(Inner::new(script), Arc::new(cfg));
-    drive(tl, script, timeout, cancel, kani::any());
+    let timed_out = drive(tl, script, timeout, cancel, kani::any());
+    kani::cover!(timed_out, "timeout reachable");
+}
+
+/// "No limit" timeouts (anything from ~11 days up to Duration::MAX): the deadline
+/// arithmetic must not wrap or collapse to "now" -- such a call never times out here.
+fn huge(cancel: bool) {
+    let secs: u64 = kani::any();
+    let nanos: u32 = kani::any();
+    kani::assume(secs >= 1_000_000 && nanos < 1_000_000_000);
+    let timeout = Duration::new(secs, nanos);
+    let script = any_script_with_latency();
+    let cfg = TimeLimiterConfig { timeout_source: FixedTimeout::new(timeout), cancel_running_future: cancel, event_listeners: tower_resilience_core::EventListeners::new(), name: String::new() };
+    let tl = TimeLimiter::new(Inner::new(script), Arc::new(cfg));
+    let timed_out = drive(tl, script, timeout, cancel, kani::any());
+    assert!(!timed_out, "[C06.timeout_only_at_deadline] a call with a practically unlimited timeout does not time out");
+    kani::cover!(secs == u64::MAX && nanos == 999_999_999, "Duration::MAX covered");
 }
 
 fn dynamic(cancel: bool) {
@@ -130,7 +147,8 @@ fn dynamic(cancel: bool) {
     let cfg = TimeLimiterConfig { timeout_source: src, cancel_running_future: cancel, event_listeners: tower_resilience_core::EventListeners::new(), name: String::new() };
     let tl = TimeLimiter::new(Inner::new(script), Arc::new(cfg));
     let req: u32 = kani::any();
-    drive(tl, script, timeout, cancel, req);
+    let timed_out = drive(tl, script, timeout, cancel, req);
+    kani::cover!(timed_out, "timeout reachable");
     assert!(gh().dyn_seen_req == req, "[C06.per_request_timeout] the per-request timeout is computed from this request");
 }
 
@@ -141,7 +159,8 @@ macro_rules! proofs { ($($name:ident = $body:expr),*) => {$(
     #[kani::stub(catch_unwind, crate::verif_kani::env::catch_unwind_stub)]
     fn $name() { $body }
 )*}}
-proofs!(cancel_fixed_timeout = fixed(true), cancel_per_request_timeout = dynamic(true), no_cancel_fixed_timeout = fixed(false));
+proofs!(cancel_fixed_timeout = fixed(true), cancel_per_request_timeout = dynamic(true), no_cancel_fixed_timeout = fixed(false),
+    cancel_huge_timeout = huge(true), no_cancel_huge_timeout = huge(false));
 
 
 /// Configuration reaches the service: the built layer uses the configured timeout and
@@ -165,6 +184,32 @@ fn builder_is_faithful() {
     if set_cancel {
         assert!(tl.config.cancel_running_future == cancel, "[C06.config_cancel_mode_used] the configured cancellation mode is used");
     }
+    std::mem::forget(tl);
+    std::mem::forget(layer);
+}
+
+/// Same through the type-changing `timeout_fn` step of the builder, in both orders.
+#[kani::proof]
+#[kani::unwind(4)]
+#[kani::stub(std::time::Instant::now, tokio::model::std_instant_now)]
+fn builder_timeout_fn_is_faithful() {
+    use tower::Layer;
+    let t = any_millis(1_000_000);
+    gh().dyn_timeout = t;
+    let cancel: bool = kani::any();
+    let f = |r: &u32| {
+        gh().dyn_seen_req = *r;
+        gh().dyn_timeout
+    };
+    let layer = if kani::any() {
+        crate::TimeLimiterLayer::builder().cancel_running_future(cancel).timeout_fn(f).build()
+    } else {
+        crate::TimeLimiterLayer::builder().timeout_fn(f).cancel_running_future(cancel).build()
+    };
+    let tl = layer.layer(Inner::new(svc::any_script()));
+    let req: u32 = kani::any();
+    assert!(tl.config.timeout_source.get_timeout(&req) == t && gh().dyn_seen_req == req, "[C06.config_timeout_used] the per-request timeout function is the one applied to calls");
+    assert!(tl.config.cancel_running_future == cancel, "[C06.config_cancel_mode_used] the configured cancellation mode survives the timeout_fn step");
     std::mem::forget(tl);
     std::mem::forget(layer);
 }
